@@ -131,6 +131,13 @@ def _class_case(case, seed):
                     break
                 if not np.array_equal(rhs, base):
                     moved = True
+                # the same identity with g.A and g.C produced by the library's own action (flags travel with the image)
+                lib = A_.times_group_element(np.array(g)).convolve_with(C_.times_group_element(np.array(g)))
+                evals += 1
+                if np.asarray(lib.data).shape != rhs.shape or not np.array_equal(np.asarray(lib.data), rhs):
+                    if len(v) < 5:
+                        v.append(viol("C01/class/library-action", f"(g.A)*(g.C) != g.(A*C) when g.A, g.C come from times_group_element: g={g.tolist()}, flags={flags}, k={k},k'={kf},p={p},p'={pf}", case=case))
+                    break
     return {"violations": v, "nt": moved, "evals": evals, "outcome": f"class/d{D}"}
 
 
